@@ -119,12 +119,13 @@ def generate():
     if not m:
         raise vlib.InfraError("pw_check: memcpy(info->name, title, N) not found")
     csize = tsize if m.group(1).startswith("sizeof") else int(m.group(1))
-    # is `title` given a defined content before the detector loop?
-    head = chk[:chk.find("for (i = 0; pw_formats[i]")] if "for (i = 0; pw_formats[i]" in chk else chk
-    inits = bool(re.search(r"title\s*\[\s*(?:\d+)?\s*\]\s*=\s*(?:\{|\"|')", head) or
-                 re.search(r"memset\s*\(\s*title\b", head) or re.search(r"\btitle\s*\[\s*0\s*\]\s*=", head) or
-                 re.search(r"\*\s*title\s*=", head))
-    full_inits = bool(re.search(r"title\s*\[\s*(?:\d+)?\s*\]\s*=\s*(?:\{|\")", head) or re.search(r"memset\s*\(\s*title\b", head))
+    # is `title` given a defined content before a detector runs? (everything of pw_check textually before the
+    # `->test(` call: declaration initialiser, memset, or a store to its first byte)
+    k = chk.find("->test(")
+    head = chk[:k] if k >= 0 else chk
+    full_inits = bool(re.search(r"title\s*\[\s*(?:\d+)?\s*\]\s*=\s*(?:\{|\")", head) or
+                      re.search(r"memset\s*\(\s*title\s*,\s*0\s*,\s*(?:sizeof\s*\(?\s*title\s*\)?|%d)\s*\)" % tsize, head))
+    inits = bool(full_inits or re.search(r"\btitle\s*\[\s*0\s*\]\s*=", head) or re.search(r"\*\s*title\s*=", head))
 
     L = []
     L.append("/-! GENERATED by tools/gen_c11.py from /repo (include/xmp.h, src/load_helpers.c, src/format.c,")
